@@ -371,7 +371,7 @@ def random_ode_case(r, name, nmax=None):
         mg = nx.configuration_model(degs, seed=r.randrange(10 ** 9))
         case['graph'] = {'n': desc['n'], 'edges': sorted([sorted(e) for e in mg.edges()]), 'labels': desc['labels'], 'multi': True}
         case.pop('prehistory', None)
-    if desc['labels'] in gen.CONTAINER_LIKE and case['ic_container'] == 'tuple':
+    if desc['labels'] in gen.CONTAINER_LIKE and case['ic_container'] in ('tuple', 'frozenset'):
         case['ic_container'] = 'list'
     if case['tmin'] < 0 and r.random() < 0.35:
         case['tspan'] = -case['tmin']        # tmax == 0 exactly
